@@ -261,6 +261,38 @@ BP = dict(params=dict(self='obj:GraphicalModel', potentials='obj:dict', logZ='bo
                    'every-clique-table-normalised-and-stored':
                    'implies(not logZ__old, ghost("n_exp_sites") == len(self.cliques) and ghost("n_site_stored") == len(self.cliques))'})
 
+# ------------------------------------------------------------------ exact inference: GraphicalModel.datavector
+class DataVectorHooks(LogNormHooks):
+    """The full-vector query: the table on the attributes covered by the cliques sums to 1, is repeated over the attributes that
+    are in no clique and rescaled.  Extern contracts used: expanding a table f onto a larger domain D repeats every cell
+    |D| / |dom f| times (numpy broadcasting), so its sum is multiplied by that ratio; Domain.size() is the (positive) cell count
+    (C15); Factor.datavector() keeps the cells (C14) and `vector * number` scales the sum."""
+
+    def size_of(self, eng, st, dom):
+        t = eng.uf('domain_cells', V, R)(eng.to_V(dom))
+        st.assume(t > 0)
+        return t
+
+    def call(self, eng, st, name, recv, args, kw, node):
+        short = name.split('.')[-1]
+        if name == 'sum' and recv is None and len(args) == 1:
+            return lv(eng, st, 'sum_of_potentials')            # a log-space factor: unknown positive exp-sum
+        if short == 'size' and recv is not None and not args and isinstance(recv, (E.Obj, E.Bound)):
+            return E.Num(self.size_of(eng, st, recv if isinstance(recv, E.Obj) else eng.bound_as_value(st, recv)), npy=True)
+        if short == 'expand' and recv is not None and len(args) == 1 and (getattr(recv, 'ghost', None) or {}).get('sum') is not None:
+            small = self.size_of(eng, st, eng.getattr(st, recv, 'domain', node))
+            big = self.size_of(eng, st, args[0])
+            return table(eng, 'expanded', recv.g('sum') * big / small)
+        if short == 'datavector' and recv is not None and (getattr(recv, 'ghost', None) or {}).get('sum') is not None:
+            return table(eng, 'vector', recv.g('sum'))
+        return LogNormHooks.call(self, eng, st, name, recv, args, kw, node)
+
+
+GM_DATAVECTOR = dict(params=dict(self='obj:GraphicalModel', flatten='bool'), attr_types={('GraphicalModel', 'total'): 'real'},
+                     requires=['self.total > 0'], division='abort', module_env={},
+                     ensures={'full-vector-sums-to-total': 'vecsum(result) == self.total'})
+DV_ITEM = ('src/mbi/graphical_model.py', 'GraphicalModel.datavector', GM_DATAVECTOR)
+
 ITEMS = [('src/mbi/region_graph.py', 'RegionGraph.generalized_belief_propagation', oracle('RegionGraph', 'marginals'), 'C16'),
          ('src/mbi/region_graph.py', 'RegionGraph.hazan_peng_shashua', oracle('RegionGraph', 'mu'), 'C17'),
          ('src/mbi/factor_graph.py', 'FactorGraph.clique_marginals', oracle('FactorGraph', 'marginals'), 'C16'),
